@@ -194,9 +194,29 @@ def run(ctx):
     tasks += [(fn, n, 'ord') for fn in ('min_f64_avx2', 'max_f64_avx2') for n in range(1, VMAX + 1)]
     tasks += [(fn, n, 'ord') for fn in ('min_f64_scalar', 'max_f64_scalar') for n in range(1, (8 if ctx.tier == 'quick' else 11))]   # one fork per element
     ctx.bounds['vector_kernel_lengths'] = '0..%d for the AVX2 kernels and both sum kernels' % VMAX
+    # thorough: the Sum / Avg / Min / Max wrappers over events (apply and apply_refs), batches of 0..2 events whose field is missing or any value
+    agg_tasks = [('agg', a, m, k) for a in ('Sum', 'Avg', 'Min', 'Max') for m in ('apply', 'apply_refs') for k in (0, 1, 2)] if ctx.tier == 'thorough' else []
+    if agg_tasks:
+        ctx.bounds['aggregate_wrappers'] = 'Sum / Avg / Min / Max ::apply and ::apply_refs on batches of 0..2 events whose field is missing, Int, Float (all bit patterns, NaN included), Str, Bool or Null'
     with ProcessPoolExecutor(max_workers=14, mp_context=mp.get_context('fork')) as pool:
         res = list(pool.map(_worker, tasks))
+        ares = list(pool.map(_agg_worker, agg_tasks)) if agg_tasks else []
     binp = None; seen = set()
+    for r in ares:
+        tgt = 'aggregation::' + r['fn']; cls = 'batch of %d events' % r['n']
+        if r.get('error'):
+            ctx.inconclusive.append('%s (%s): %s' % (tgt, cls, r['error'])); continue
+        for why in sorted(set(r['inconclusive'])): ctx.inconclusive.append('%s (%s): %s' % (tgt, cls, why))
+        ctx.queries += r['queries']; ctx.solver_s += r['solver_s']
+        ctx.add_obligations(tgt, r['verdicts'], cls=cls)
+        ctx.samples.append({'target': tgt, 'class': cls, 'paths': r['paths'], 'obligations': len(r['verdicts'])})
+        for v in r['verdicts']:
+            if v['status'] != 'violated': continue
+            key = '%s:%s' % (tgt, v['name'][:50])
+            if key in seen: continue
+            seen.add(key)
+            b2 = replay.build('rt')
+            ctx.findings.append(Finding(key, '%s on %s: %s violated (witness %s)' % (tgt, cls, v['name'], v.get('witness')), [b2, 'agg'], {'witness': v.get('witness'), 'n': r['n']}))
     for r in res:
         tgt = 'simd::' + r['fn']; cls = 'slice of %d elements%s' % (r['n'], r.get('domain', ''))
         if r.get('error'):
@@ -216,6 +236,19 @@ def run(ctx):
 
 
 # ------------------------------------------------------------------------------------------------ aggregate wrappers over events
+def _agg_worker(t):
+    global _MOD, _CORE
+    try:
+        if _CORE is None:
+            _CORE, _ = mirdump.load('core')
+        if _MOD is None:
+            _MOD, _ = mirdump.load('runtime')
+        return agg_job(t[1], t[2], t[3])
+    except Exception as e:
+        import traceback; traceback.print_exc()
+        return {'fn': '%s::%s' % (t[1], t[2]), 'n': t[3], 'error': '%s: %s' % (type(e).__name__, e), 'verdicts': [], 'paths': 0, 'queries': 0, 'solver_s': 0, 'inconclusive': []}
+
+
 class FieldMap:
     """event.data: the aggregated field is missing or holds a symbolic value of any type"""
     def __init__(self, opt): self.opt = opt
